@@ -69,33 +69,50 @@ def readString : Bytes → Nat → Bytes → Except HdrErr (Bytes × Bytes)
       | [] => .error .eof                      -- `z.r.ReadByte()` at the end of the file
       | b :: rest => if b = 0 then .ok (acc ++ [b], rest) else readString rest (i + 1) (acc ++ [b])
 
+/-- `if flg&flagExtra != 0 { … }`: the length, the data; answers the rest and the running digest -/
+def stageExtra (flg : UInt8) (r : Bytes) (dg : UInt32) : Except HdrErr (Bytes × UInt32) :=
+  if flg &&& flagExtra ≠ 0 then
+    match readFull 2 r with
+    | .error e => .error (noEOF e)
+    | .ok (l, r1) =>
+      match readFull (le16 l) r1 with
+      | .error e => .error (noEOF e)
+      | .ok (data, r2) => .ok (r2, crcUpdate (crcUpdate dg l) data)
+  else .ok (r, dg)
+
+/-- `if flg&flagName != 0 { … }` / `if flg&flagComment != 0 { … }` -/
+def stageString (flg bit : UInt8) (r : Bytes) (dg : UInt32) : Except HdrErr (Bytes × UInt32) :=
+  if flg &&& bit ≠ 0 then
+    match readString r 0 [] with
+    | .error e => .error (noEOF e)
+    | .ok (str, r1) => .ok (r1, crcUpdate dg str)
+  else .ok (r, dg)
+
+/-- `if flg&flagHdrCrc != 0 { … }`: the low 16 bits of the CRC-32 of everything before -/
+def stageCrc (flg : UInt8) (r : Bytes) (dg : UInt32) : Except HdrErr Bytes :=
+  if flg &&& flagHdrCrc ≠ 0 then
+    match readFull 2 r with
+    | .error e => .error (noEOF e)
+    | .ok (c, r1) => if le16 c ≠ dg.toNat % 65536 then .error .header else .ok r1
+  else .ok r
+
 /-- `readHeader` on a file with content `s`: the rest of the file after the header (where DEFLATE data starts) -/
-def readHeaderRest (s : Bytes) : Except HdrErr Bytes := do
-  let (h, r0) ← readFull 10 s
-  if h.getD 0 0 ≠ 0x1f ∨ h.getD 1 0 ≠ 0x8b ∨ h.getD 2 0 ≠ 8 then throw .header
-  let flg := h.getD 3 0
-  let dg0 := crcUpdate 0 h
-  let (r1, dg1) ←
-    if flg &&& flagExtra ≠ 0 then do
-      let (l, r) ← (readFull 2 r0).mapError noEOF
-      let (data, r') ← (readFull (le16 l) r).mapError noEOF
-      pure (r', crcUpdate (crcUpdate dg0 l) data)
-    else pure (r0, dg0)
-  let (r2, dg2) ←
-    if flg &&& flagName ≠ 0 then do
-      let (str, r) ← (readString r1 0 []).mapError noEOF
-      pure (r, crcUpdate dg1 str)
-    else pure (r1, dg1)
-  let (r3, dg3) ←
-    if flg &&& flagComment ≠ 0 then do
-      let (str, r) ← (readString r2 0 []).mapError noEOF
-      pure (r, crcUpdate dg2 str)
-    else pure (r2, dg2)
-  if flg &&& flagHdrCrc ≠ 0 then do
-    let (c, r) ← (readFull 2 r3).mapError noEOF
-    if le16 c ≠ dg3.toNat % 65536 then throw .header
-    pure r
-  else pure r3
+def readHeaderRest (s : Bytes) : Except HdrErr Bytes :=
+  match readFull 10 s with
+  | .error e => .error e                                  -- io.EOF for an empty file is NOT converted
+  | .ok (h, r0) =>
+    if h.getD 0 0 ≠ 0x1f ∨ h.getD 1 0 ≠ 0x8b ∨ h.getD 2 0 ≠ 8 then .error .header
+    else
+      let flg := h.getD 3 0
+      match stageExtra flg r0 (crcUpdate 0 h) with
+      | .error e => .error e
+      | .ok (r1, dg1) =>
+        match stageString flg flagName r1 dg1 with
+        | .error e => .error e
+        | .ok (r2, dg2) =>
+          match stageString flg flagComment r2 dg2 with
+          | .error e => .error e
+          | .ok (r3, dg3) => stageCrc flg r3 dg3
 
 /-- Answer of `gzip.NewReader` as far as rare can see it: the offset at which the compressed data starts,
     or the error. -/
